@@ -107,17 +107,32 @@ class Loop:
         def cursor_slot(c):
             """`owner.storage.add(owner.cursor)` for a tracked owner LOCAL: the slot its own cursor designates at this call."""
             p = c.args[0]
-            if not (p[0] == "P" and isinstance(p[1], tuple) and len(p[1]) == 3 and p[1][0] == "field" and p[1][1][0] == "local" and len(p[1][2]) == 1):
-                return None
-            adt = local_adt(a, p[1][1][1])
-            o = owners_.get(adt)
-            if o is None or o["array_is_ref"] or p[1][2][0] != o["array"] or not c.targs:
+            if p[0] != "P" or not c.targs:
                 return None
             S_ = a.tenv.size(c.targs[0])
-            for fpos in o["pos"]:
-                v = a.read_cell(State(c.mem, c.facts), p[1][1], (fpos,), {"k": "prim", "n": "usize"})
-                if v[0] == "I" and S_ is not None and p[2] == v[1] * S_:
-                    return repr(("cur", p[1][1], fpos))
+            if isinstance(p[1], tuple) and len(p[1]) == 3 and p[1][0] == "field" and p[1][1][0] == "local" and len(p[1][2]) == 1:
+                adt = local_adt(a, p[1][1][1])
+                o = owners_.get(adt)
+                if o is None or o["array_is_ref"] or p[1][2][0] != o["array"]:
+                    return None
+                for fpos in o["pos"]:
+                    v = a.read_cell(State(c.mem, c.facts), p[1][1], (fpos,), {"k": "prim", "n": "usize"})
+                    if v[0] == "I" and S_ is not None and p[2] == v[1] * S_:
+                        return repr(("cur", p[1][1], fpos))
+                return None
+            # an owner that refers to its storage (`array: &mut GenericArray<..>`): the storage is the pointee of that field
+            for L in range(len(a.locals)):
+                o = owners_.get(local_adt(a, L))
+                if o is None or not o["array_is_ref"]:
+                    continue
+                st_ = State(c.mem, c.facts)
+                arrp = a.read_cell(st_, ("local", L), (o["array"],), None)
+                if not (arrp is not None and arrp[0] == "P" and arrp[1] == p[1] and not arrp[2].t):
+                    continue
+                for fpos in o["pos"]:
+                    v = a.read_cell(st_, ("local", L), (fpos,), {"k": "prim", "n": "usize"})
+                    if v[0] == "I" and S_ is not None and p[2] == v[1] * S_:
+                        return repr(("cur", ("local", L), fpos))
             return None
         for c in self.calls():
             kind = None
@@ -189,6 +204,15 @@ def find_loops(a):
     out = []
     n = 0
     for c in a.calls:
+        if c.fn in ("core::slice::<impl [T]>::get", "core::slice::<impl [T]>::get_mut") and c.ret is not None and c.ret[0] == "O" and a.reaches(c.bb, c.bb):
+            # `while let Some(slot) = slice.get_mut(cursor) { .. }`: a loop driven by a bounds-checked access; the slot is whatever the index
+            # designates (a cursor-addressed slot if the index is an owner's cursor), the loop ends when the index reaches the length
+            lp = Loop(a, c, None)
+            if lp.entries:
+                lp.key = "loop@%s#%d" % (c.fn.split("::")[-1], n)
+                n += 1
+                out.append(lp)
+            continue
         if c.fn not in ("core::iter::Iterator::next", "core::iter::DoubleEndedIterator::next_back"):
             continue
         if c.ret is None or c.ret[0] != "O" or not a.reaches(c.bb, c.bb):
@@ -283,8 +307,22 @@ def link_loop(ctx, cfg, body, lp, info, role, rule):
                             Nn = a.tenv.length([x for x in t_["args"] if x.get("k") != "region"][-1])
                             inv += [(">=", hi_ - lo_), (">=", Nn - hi_), (">=", lo_)]
                     room = steps is not None and v0 is not None and N_ is not None and prove((">=", N_ - v0 - steps), a.poly_facts(lp.nxt.facts) + inv)
-                    src_ok = bool(room)
                     det = "cursor field '%s' of owner %s, whose own storage the slots are; at most %r steps from cursor %r with %r slots: %s" % (o["names"][fidx], adt.split("::")[-1], steps, v0, N_, bool(room))
+                    if not room and lp.nxt.fn in ("core::slice::<impl [T]>::get", "core::slice::<impl [T]>::get_mut") and lp.nxt.ret[0] == "O" and N_ is not None:
+                        # a loop driven by `storage.get_mut(cursor)`: every step is entered only with cursor < len (the access is bounds-checked), so
+                        # the cursor cannot run past the storage if the slice is the owner's whole storage and the index is its cursor
+                        tag = lp.nxt.ret[2]
+                        cur = a.read_cell(State(lp.nxt.mem, lp.nxt.facts), obase, (fidx,), {"k": "prim", "n": "usize"})
+                        sl = lp.nxt.args[0]
+                        if o["array_is_ref"]:
+                            arrp = a.read_cell(State(lp.nxt.mem, lp.nxt.facts), obase, (o["array"],), None)
+                            st_ok = arrp is not None and arrp[0] == "P" and sl[0] == "P" and sl[1] == arrp[1] and not sl[2].t and not arrp[2].t
+                        else:
+                            st_ok = sl[0] == "P" and sl[1] == ("field", obase, (o["array"],)) and not sl[2].t
+                        room = bool(st_ok and cur[0] == "I" and tag[2] == cur[1] and sl[3] is not None and prove(("==", sl[3] - N_), a.poly_facts(lp.nxt.facts)))
+                        det = "cursor field '%s' of owner %s, whose own storage the slots are; the loop is driven by a bounds-checked access storage.get(cursor) over the owner's whole storage (%r slots): %s" % (
+                            o["names"][fidx], adt.split("::")[-1], N_, room)
+                    src_ok = bool(room)
                 else:
                     det = "position field '%s' of owner %s; slots iterate that owner's storage: %s" % (o["names"][fidx], adt.split("::")[-1], src_ok)
                 if obase[0] == "local":
